@@ -13,9 +13,11 @@
    MODELLED CLASS ([supported]).  Coq strings are the bytes of the UTF-8 text.  A text is supported iff
      (1) every byte is a newline (10) or a printable 7-bit ASCII character 32..126
          (no tabs, no form feeds, no carriage returns, no other control characters, nothing non-ASCII), and
-     (2) it nowhere contains  f' f" F' F"  nor  f/F followed by r/R followed by a quote
-         (a conservative test that keeps every f-string out: 3.12 tokenizes those as FSTRING_START ...;
-          it also excludes harmless texts such as 'pdf' whose string CONTENT ends in the letter f).
+     (2) no f-string prefix (f, fr, rf in any case, directly in front of a quote) stands where a token may start:
+         the prefix is harmless inside a run of identifier characters that begins with a letter or underscore and does
+         not follow a "." ('pdf', "self", xrf'..' are inside the class); anywhere else it is refused -- conservatively:
+         ' f' or "%f" (string CONTENT) are outside.  3.12 tokenizes f-strings as FSTRING_START ...; note that
+         1f'x', 1jf'x', 0xarf'x', 1.e5f'x' are a NUMBER followed by an f-string.
    Everything else is modelled exactly, including the tokenizer's answers to malformed text.
 
    Positions: srow/erow 1-based lines, scol/ecol 0-based columns.  Definitions only. *)
@@ -43,20 +45,28 @@ Definition char_ok (c : ascii) : bool :=
   let n := nat_of_ascii c in Ascii.eqb c nl || ((32 <=? n)%nat && (n <=? 126)%nat).
 
 (* ---- the supported class ---- *)
-Fixpoint no_fquote (l : chars) : bool :=
+(* an f-string prefix -- f, fr, rf in any case directly in front of a quote -- at the head of [l] *)
+Definition fprefix_here (l : chars) : bool :=
+  match l with
+  | a :: b :: r =>
+      let q3 := match r with q :: _ => is_quote q | [] => false end in
+      (either "f" "F" a && (is_quote b || (either "r" "R" b && q3))) || (either "r" "R" a && either "f" "F" b && q3)
+  | _ => false
+  end.
+(* where a token may start.  Inside a run of identifier characters that began with a letter or underscore and does
+   not follow a "." no token starts ([FSafe]: the run is a NAME, or lies inside a string or a comment); a run that
+   begins with a digit or follows a "." may be a NUMBER ending in a letter (1jf"x", 0xarf"x", 1.e5f"x" ARE f-strings) *)
+Inductive fstate := FBound | FDot | FSafe | FOther.
+Definition fnext (st : fstate) (c : ascii) : fstate :=
+  if is_word c then
+    match st with FBound => if is_digit c then FOther else FSafe | FDot => FOther | FSafe => FSafe | FOther => FOther end
+  else if Ascii.eqb c "." then FDot else FBound.
+Fixpoint no_fprefix (st : fstate) (l : chars) : bool :=
   match l with
   | [] => true
-  | c :: r =>
-      (if either "f" "F" c then
-         match r with
-         | [] => true
-         | q :: r' =>
-             if is_quote q then false
-             else if either "r" "R" q then match r' with q2 :: _ => negb (is_quote q2) | [] => true end
-             else true
-         end
-       else true) && no_fquote r
+  | c :: r => (match st with FSafe => true | _ => negb (fprefix_here l) end) && no_fprefix (fnext st c) r
   end.
+Definition no_fquote (l : chars) : bool := no_fprefix FBound l.
 Definition supported_chars (l : chars) : bool := forallb char_ok l && no_fquote l.
 Definition supported (s : string) : bool := supported_chars (list_ascii_of_string s).
 
